@@ -7,6 +7,7 @@ import (
 	"reflect"
 	"sort"
 	"strings"
+	"time"
 
 	"github.com/brocaar/lorawan"
 	"github.com/brocaar/lorawan/applayer/clocksync"
@@ -234,12 +235,23 @@ func wideAlphabet(w int) []uint64 {
 	for b := 0; b < w; b++ {
 		vals = append(vals, 1<<uint(b))
 	}
+	if w == 32 {
+		// the 32-bit fields of these packages are GPS times (seconds since the GPS epoch): the seconds
+		// around every inserted leap second, where GPS and UTC arithmetic part, and today's value
+		epoch := time.Date(1980, 1, 6, 0, 0, 0, 0, time.UTC)
+		for k, l := range spec.LeapDates() {
+			g := uint64(l.Sub(epoch)/time.Second) + uint64(k)
+			vals = append(vals, g-1, g, g+1)
+		}
+		vals = append(vals, 1400000000)
+	}
 	return vals
 }
 
 // leaves lists the settable leaves of a payload struct type with alphabets:
 // complete domains for fields of width <= 8, bool and [4]bool; {0,1,max,
-// alternating patterns, every single bit} for wider integers; three fillers
+// alternating patterns, every single bit, for 32-bit (GPS time) fields also the seconds
+// around the 18 leap seconds} for wider integers; three fillers
 // for byte arrays. Slices and pointers are handled by the per-type variants.
 func leaves(pkg *appPkg, typeName string, t reflect.Type, prefix string, index []int) []leaf {
 	var out []leaf
